@@ -6,7 +6,8 @@
    Invariants: Proofs/TokenInv.v (Tiling, InBounds, OrderedDisjoint, ZeroWidthOnlyBreaks), Proofs/Shape.v
    (kind_shape / Shape), Proofs/CondenseInv.v (Grouped + the grouping rule G_* of each pass, QuotesOk). *)
 Require Import Base Overlap OverlapProofs Tables_lexer Lexer Condense ListLemmas TokenInv CondenseInv LexerProofs
-  CondPatterns3 CondPattern CondSpaces CondInitialisms CondSuffixQuotes Shape NumberFinite WordsMaximal DocumentProofs.
+  CondPatterns3 CondPattern CondSpaces CondInitialisms CondSuffixQuotes Shape NumberFinite WordsMaximal DocumentProofs
+  C02Wrappers C02Gapped C02WrappersProofs C02Quotes C02GapPasses.
 From Coq Require Import ZArith.
 
 (* ---------- the lexer ---------- *)
@@ -232,3 +233,186 @@ Example C02_document_nonvacuous :
         mktok (mkspan 5 6) (KSpace 1); mktok (mkspan 6 10) KWord; mktok (mkspan 10 12) (KSpace 3);
         mktok (mkspan 12 16) KWord; mktok (mkspan 16 19) (KPunct PEllipsis)].
 Proof. vm_compute. reflexivity. Qed.
+
+(* ====================== phase 3: wrapper parsers, gapped vectors, match_quotes on every vector ======================
+   Models: Model/C02Wrappers.v (IsolateEnglish::parse with iter_chunks and is_likely_english; CollapseIdentifiers::parse
+   with its pattern, find_all_matches and `.sorted().unique()`); `dict` = Dictionary::contains_word, a parameter.
+   Invariants: Proofs/C02Gapped.v — Gapped a b ts (non-empty, ordered, disjoint tokens inside [a,b): a tiling with
+   gaps), Sub (sub-sequence), TokInv n ts (the property's front-end independent clauses: start <= end, covering
+   tokens in bounds and ordered/disjoint, zero-width tokens only Newline / ParagraphBreak), Coarse ts ts' (every token of
+   ts' spans a run of consecutive tokens of the vector ts). *)
+
+(* a gapped tiling has the three front-end independent invariants of the property *)
+Theorem C02_gapped_invariants : forall n ts,
+  Gapped 0 n ts -> InBounds n ts /\ OrderedDisjoint ts /\ ZeroWidthOnlyBreaks ts.
+Proof. exact gapped_invariants. Qed.
+Check C02_gapped_invariants : forall n ts,
+  Gapped 0 n ts -> InBounds n ts /\ OrderedDisjoint ts /\ ZeroWidthOnlyBreaks ts.
+Print Assumptions C02_gapped_invariants.
+
+(* IsolateEnglish on ANY inner vector whose Word tokens lie inside the text (wgood), any dictionary: never panics;
+   iter_chunks cuts the vector into pieces that concatenate to it; the output is the concatenation of the kept
+   chunks (every chunk of fewer than 4 tokens, and the chunks is_likely_english accepts) — a sub-sequence *)
+Theorem C02_isolate_english_chunks : forall dict src inner, Forall (wgood src) inner ->
+  exists chunks, iter_chunks inner = Ok chunks /\ concat chunks = inner /\
+    isolate_english dict src inner = Ok (concat (filter (ie_keep dict src) chunks)) /\
+    Sub (concat (filter (ie_keep dict src) chunks)) inner.
+Proof. exact isolate_english_spec. Qed.
+Check C02_isolate_english_chunks : forall dict src inner, Forall (wgood src) inner ->
+  exists chunks, iter_chunks inner = Ok chunks /\ concat chunks = inner /\
+    isolate_english dict src inner = Ok (concat (filter (ie_keep dict src) chunks)) /\
+    Sub (concat (filter (ie_keep dict src) chunks)) inner.
+Print Assumptions C02_isolate_english_chunks.
+
+(* hence IsolateEnglish preserves the token invariant of the property, for every inner parser that has it *)
+Theorem C02_isolate_english : forall dict src inner, TokInv (length src) inner ->
+  exists out, isolate_english dict src inner = Ok out /\ Sub out inner /\ TokInv (length src) out.
+Proof. exact isolate_english_tokinv. Qed.
+Check C02_isolate_english : forall dict src inner, TokInv (length src) inner ->
+  exists out, isolate_english dict src inner = Ok out /\ Sub out inner /\ TokInv (length src) out.
+Print Assumptions C02_isolate_english.
+
+(* ... and turns a (gapped) tiling into a gapped tiling — NOT into a tiling: the root of finding F28 *)
+Theorem C02_isolate_english_gapped : forall dict src inner a b, a <= b -> b <= length src -> Gapped a b inner ->
+  exists out, isolate_english dict src inner = Ok out /\ Sub out inner /\ Gapped a b out.
+Proof. exact isolate_english_gapped. Qed.
+Check C02_isolate_english_gapped : forall dict src inner a b, a <= b -> b <= length src -> Gapped a b inner ->
+  exists out, isolate_english dict src inner = Ok out /\ Sub out inner /\ Gapped a b out.
+Print Assumptions C02_isolate_english_gapped.
+
+(* CollapseIdentifiers on any inner vector with the token invariant, any dictionary: never panics; the output is
+   a grouping of the vector — a run `word (hyphen|underscore word)+` whose text the dictionary contains becomes ONE
+   Word spanning it, everything else is kept — and has the token invariant again *)
+Theorem C02_collapse_identifiers : forall dict src inner, TokInv (length src) inner ->
+  exists out, collapse_identifiers dict src inner = Ok out /\ Grouped (G_ident dict src) inner out /\
+              TokInv (length src) out.
+Proof. exact collapse_identifiers_tokinv. Qed.
+Check C02_collapse_identifiers : forall dict src inner, TokInv (length src) inner ->
+  exists out, collapse_identifiers dict src inner = Ok out /\ Grouped (G_ident dict src) inner out /\
+              TokInv (length src) out.
+Print Assumptions C02_collapse_identifiers.
+
+(* it keeps tilings tilings and gapped tilings gapped *)
+Theorem C02_collapse_identifiers_tiling : forall dict src inner, Tiling 0 (length src) inner ->
+  exists out, collapse_identifiers dict src inner = Ok out /\ Grouped (G_ident dict src) inner out /\
+              Tiling 0 (length src) out.
+Proof. exact collapse_identifiers_tiling. Qed.
+Check C02_collapse_identifiers_tiling : forall dict src inner, Tiling 0 (length src) inner ->
+  exists out, collapse_identifiers dict src inner = Ok out /\ Grouped (G_ident dict src) inner out /\
+              Tiling 0 (length src) out.
+Print Assumptions C02_collapse_identifiers_tiling.
+
+Theorem C02_collapse_identifiers_gapped : forall dict src inner, Gapped 0 (length src) inner ->
+  exists out, collapse_identifiers dict src inner = Ok out /\ Grouped (G_ident dict src) inner out /\
+              Gapped 0 (length src) out.
+Proof. exact collapse_identifiers_gapped. Qed.
+Check C02_collapse_identifiers_gapped : forall dict src inner, Gapped 0 (length src) inner ->
+  exists out, collapse_identifiers dict src inner = Ok out /\ Grouped (G_ident dict src) inner out /\
+              Gapped 0 (length src) out.
+Print Assumptions C02_collapse_identifiers_gapped.
+
+(* a grouping of a gapped tiling is a gapped tiling; a sub-sequence of one too *)
+Theorem C02_grouped_gapped : forall G ts ts', Grouped G ts ts' -> forall a b, Gapped a b ts -> Gapped a b ts'.
+Proof. exact grouped_gapped. Qed.
+Check C02_grouped_gapped : forall G ts ts', Grouped G ts ts' -> forall a b, Gapped a b ts -> Gapped a b ts'.
+Print Assumptions C02_grouped_gapped.
+
+(* match_quotes on EVERY token vector (no NoTwins premise): never panics, keeps spans and kinds, and every quote
+   except the unpaired last one of an odd number of quotes points at an existing quote that points back; that last
+   quote is left exactly as it arrived *)
+Theorem C02_match_quotes_any : forall ts,
+  exists ts', match_quotes ts = Ok ts' /\ SameButTwins ts ts' /\
+    QuotesOkBut (unpaired_quote ts) ts' /\
+    (forall i, unpaired_quote ts = Some i -> nth_error ts' i = nth_error ts i).
+Proof. exact match_quotes_any. Qed.
+Check C02_match_quotes_any : forall ts,
+  exists ts', match_quotes ts = Ok ts' /\ SameButTwins ts ts' /\
+    QuotesOkBut (unpaired_quote ts) ts' /\
+    (forall i, unpaired_quote ts = Some i -> nth_error ts' i = nth_error ts i).
+Print Assumptions C02_match_quotes_any.
+
+(* so QuotesOk needs only that this ONE quote arrives without a twin (C02_match_quotes asked it of all) *)
+Theorem C02_match_quotes_ok_if : forall ts,
+  (forall i t, unpaired_quote ts = Some i -> nth_error ts i = Some t -> quote_twin t = Some None) ->
+  exists ts', match_quotes ts = Ok ts' /\ SameButTwins ts ts' /\ QuotesOk ts'.
+Proof. exact match_quotes_ok_if. Qed.
+Check C02_match_quotes_ok_if : forall ts,
+  (forall i t, unpaired_quote ts = Some i -> nth_error ts i = Some t -> quote_twin t = Some None) ->
+  exists ts', match_quotes ts = Ok ts' /\ SameButTwins ts ts' /\ QuotesOk ts'.
+Print Assumptions C02_match_quotes_ok_if.
+
+(* the whole of Document::parse on a GAPPED vector inside the text (what IsolateEnglish / Mask-based front-ends hand
+   it): never panics; the result is gapped again (in bounds, ordered, disjoint, no zero-width token); every token
+   of the result spans a run of consecutive tokens of the given VECTOR; quotes are paired up to the unpaired last
+   one, fully when the vector arrives without twins.  The positive half of finding F28. *)
+Theorem C02_document_passes_gapped : forall src t0, Gapped 0 (length src) t0 ->
+  exists t9, document_passes src t0 = Ok t9 /\ Gapped 0 (length src) t9 /\ Coarse t0 t9 /\
+    QuotesOkBut (unpaired_quote t9) t9 /\ (NoTwins t0 -> QuotesOk t9).
+Proof. exact document_passes_gapped. Qed.
+Check C02_document_passes_gapped : forall src t0, Gapped 0 (length src) t0 ->
+  exists t9, document_passes src t0 = Ok t9 /\ Gapped 0 (length src) t9 /\ Coarse t0 t9 /\
+    QuotesOkBut (unpaired_quote t9) t9 /\ (NoTwins t0 -> QuotesOk t9).
+Print Assumptions C02_document_passes_gapped.
+
+(* the negative half (finding F28): "a. zz q.." with a dictionary that knows only `a` — IsolateEnglish drops the chunk
+   ` zz q.`, the two periods become neighbours in the vector, condense_ellipsis makes ONE Ellipsis token 1..9 whose
+   text `. zz q..` is not an ellipsis: the result is gapped but does not have the lexical shapes *)
+Theorem C02_condense_across_gap_refuted :
+  plain_parse ascii_uni f28_src = Ok f28_raw /\
+  isolate_english f28_dict f28_src f28_raw = Ok f28_kept /\
+  Gapped 0 (length f28_src) f28_kept /\
+  document_passes f28_src f28_kept = Ok f28_out /\
+  Gapped 0 (length f28_src) f28_out /\
+  ~ Shape ascii_uni true true f28_src f28_out.
+Proof. exact condense_across_gap_witness. Qed.
+Check C02_condense_across_gap_refuted :
+  plain_parse ascii_uni f28_src = Ok f28_raw /\
+  isolate_english f28_dict f28_src f28_raw = Ok f28_kept /\
+  Gapped 0 (length f28_src) f28_kept /\
+  document_passes f28_src f28_kept = Ok f28_out /\
+  Gapped 0 (length f28_src) f28_out /\
+  ~ Shape ascii_uni true true f28_src f28_out.
+Print Assumptions C02_condense_across_gap_refuted.
+
+(* PlainEnglish wrapped by IsolateEnglish, then Document::parse: for ANY Unicode tables and dictionary no panic, the
+   tokens are a gapped tiling of the text, quotes paired;  wrapped by CollapseIdentifiers: still an exact tiling *)
+Theorem C02_document_plain_ie : forall u dict s,
+  exists ts, document_plain_ie u dict s = Ok ts /\ Gapped 0 (length s) ts /\ QuotesOk ts.
+Proof. exact document_plain_ie_gapped. Qed.
+Check C02_document_plain_ie : forall u dict s,
+  exists ts, document_plain_ie u dict s = Ok ts /\ Gapped 0 (length s) ts /\ QuotesOk ts.
+Print Assumptions C02_document_plain_ie.
+
+Theorem C02_document_plain_ci : forall u dict s,
+  exists ts, document_plain_ci u dict s = Ok ts /\ Tiling 0 (length s) ts /\ QuotesOk ts.
+Proof. exact document_plain_ci_tiling. Qed.
+Check C02_document_plain_ci : forall u dict s,
+  exists ts, document_plain_ci u dict s = Ok ts /\ Tiling 0 (length s) ts /\ QuotesOk ts.
+Print Assumptions C02_document_plain_ci.
+
+(* ---------- non-vacuity of the phase-3 theorems ---------- *)
+(* the inner vector of the F28 witness tiles its text, has the token invariant and no twins; IsolateEnglish really
+   drops a chunk of it (C02_condense_across_gap_refuted) *)
+Example C02_isolate_english_nonvacuous :
+  Tiling 0 (length f28_src) f28_raw /\ TokInv (length f28_src) f28_raw /\ NoTwins f28_raw.
+Proof. exact f28_raw_tiling. Qed.
+(* "a_b c-d", dictionary {a_b}: one identifier collapsed, the other kept *)
+Example C02_collapse_identifiers_nonvacuous :
+  plain_parse ascii_uni ci_src = Ok ci_raw /\
+  collapse_identifiers (dict_of [[97; 95; 98]%N]) ci_src ci_raw
+  = Ok [mktok (mkspan 0 3) KWord; mktok (mkspan 3 4) (KSpace 1);
+        mktok (mkspan 4 5) KWord; mktok (mkspan 5 6) (KPunct PHyphen); mktok (mkspan 6 7) KWord] /\
+  Tiling 0 (length ci_src) ci_raw.
+Proof. exact collapse_example. Qed.
+(* match_quotes with stale twins on the first two of three quotes; and the limit of the statement: a lone quote that
+   ARRIVES with a twin keeps it (no parser of harper-core produces such a token: lex_quote emits None) *)
+Example C02_match_quotes_any_nonvacuous :
+  let q tw i := mktok (mkspan i (i + 1)) (KPunct (PQuote tw)) in
+  match_quotes [q (Some 9) 0; mktok (mkspan 1 2) KWord; q (Some 0) 2; q None 3]
+  = Ok [q (Some 2) 0; mktok (mkspan 1 2) KWord; q (Some 0) 2; q None 3]
+  /\ unpaired_quote [q (Some 9) 0; mktok (mkspan 1 2) KWord; q (Some 0) 2; q None 3] = Some 3.
+Proof. exact match_quotes_any_example. Qed.
+Example C02_match_quotes_stale_twin_limit :
+  let ts := [mktok (mkspan 0 1) (KPunct (PQuote (Some 7)))] in
+  match_quotes ts = Ok ts /\ unpaired_quote ts = Some 0 /\ ~ QuotesOk ts.
+Proof. exact match_quotes_stale_witness. Qed.
